@@ -11,7 +11,9 @@ def run(ctx):
     n_sync, n_racy, maxops = (300, 150, 30) if ctx.tier == "quick" else (6000, 3000, 60)
     lines = (ctx.harness(["-seed", ctx.seed, "-n", n_sync, "-maxops", maxops]) or []) + \
             (ctx.harness(["-seed", ctx.seed + 7919, "-n", n_racy, "-maxops", maxops, "-racy"]) or []) + \
-            (ctx.harness(["-seed", ctx.seed + 104729, "-n", n_sync // 2, "-maxops", maxops, "-reconciler"]) or [])
+            (ctx.harness(["-seed", ctx.seed + 104729, "-n", n_sync // 2, "-maxops", maxops, "-reconciler"]) or []) + \
+            (ctx.harness(["-seed", ctx.seed + 15485863, "-n", 6 if ctx.tier == "quick" else 60, "-maxops", maxops,
+                          "-bigfirst", 1500]) or [])
     if not getattr(ctx, "harness_ok", False):
         ctx.broken("harness does not build against the current tree", detail="\n".join(ctx.build_errors))
 
